@@ -21,7 +21,7 @@ import (
 )
 
 func TestMain(m *testing.M) {
-	vstat.Rule("TokenLimiter behind a (source, amount) header extractor under a frozen clock with random sub-second phase. Rate sets of 1-3 rates, periods from {1s,1.5s,2s,10s,1min,1h}, average 1-100, burst 1..5*average (the domain the statement guarantees). Histories are segment programs (k requests of amount a from source s spaced by gap g), gaps from {0,1ms,7ms,50ms,1/3s,1s,5s,12s,70s,700s, >10*period}, amounts 1-3 and occasionally > burst, 1-3 sources within capacity, up to ~600 requests spanning several entry lifetimes. Oracle: for every source, every rate and every pair of admitted requests i<=j: sum of amounts in [t_i,t_j] <= burst + floor((t_j-t_i)/tau) + 1, tau=floor(period/average), exact integer arithmetic. Also through TokenBucketSet.Consume directly, and concurrent first contact of one source. Non-trivial: >=1 rejection between two admissions and (history spans > 1 entry lifetime of a busy source, or an idle gap >= burst*tau, or a multi-rate set). A third of the limiters use the stock client.ip extractor (IPv4, IPv6, zoned IPv6 peers on changing ports: one address is one source). TestC03_Quota: volume quotas (periods 1 h-30 d, averages up to 4e9, uploads of up to 5e6 units every 1 ms-7 s) against the same bound. Sources may be on plans of their own through ExtractRates (slower plans, idle gaps of 12 s-2 min) and are bound by their own rates.")
+	vstat.Rule("TokenLimiter behind a (source, amount) header extractor under a frozen clock with random sub-second phase. Rate sets of 1-3 rates, periods from {1s,1.5s,2s,10s,1min,1h}, average 1-100, burst 1..5*average (the domain the statement guarantees). Histories are segment programs (k requests of amount a from source s spaced by gap g), gaps from {0,1ms,7ms,50ms,1/3s,1s,5s,12s,70s,700s, >10*period}, amounts 1-3 and occasionally > burst, 1-3 sources within capacity, up to ~600 requests spanning several entry lifetimes. Oracle: for every source, every rate and every pair of admitted requests i<=j: sum of amounts in [t_i,t_j] <= burst + floor((t_j-t_i)/tau) + 1, tau=floor(period/average), exact integer arithmetic. Also through TokenBucketSet.Consume directly, and concurrent first contact of one source. Non-trivial: >=1 rejection between two admissions and (history spans > 1 entry lifetime of a busy source, or an idle gap >= burst*tau, or a multi-rate set). A third of the limiters use the stock client.ip extractor (IPv4, IPv6, zoned IPv6 peers on changing ports: one address is one source). TestC03_Quota: volume quotas (periods 1 h-30 d, averages up to 4e9, uploads of up to 5e6 units every 1 ms-7 s) against the same bound. Sources may be on plans of their own through ExtractRates (slower plans, idle gaps of 12 s-2 min) and are bound by their own rates. TestC03_Reconfigure: RateSet.Add on the live default set mid-history (override of the 1 s rate, optional new 1 min rate): events after the change are bound by the new rates for a known and for a new source; optional shared option list with an ExtractRates that returns the empty set or fails, and a second limiter with generous defaults built from it afterwards.")
 	vstat.Main(m.Run)
 }
 
